@@ -230,10 +230,13 @@ func c05Run(j *rt.Job, seed uint64, r *rt.Rec) {
 		// the signature is a function of (seed, sig number) only, so all ranges flip the same signature
 		krng := rt.NewRand(seed, fmt.Sprintf("C05/bits/%d", j.Int("sig")))
 		ks := krng.Seed48()
-		lib := dilLibKey(ks)
-		pk := lib.GetPK()
+		rk := dilRefKey(ks)
+		var pk [dilPKBytes]byte
+		copy(pk[:], rk.PK)
 		msg := dilMsg(krng, krng.Intn(40))
-		sig, _ := lib.Sign(msg)
+		rsig, _ := rk.Sign(msg, dilref.Knobs{})
+		var sig [dilSigBytes]byte
+		copy(sig[:], rsig)
 		if ok, _ := dilVerify(msg, sig[:], pk[:]); !ok {
 			r.Violate("C05/valid-rejected", "an honest signature does not verify", c05Case{"c05", "honest", rt.Hex(pk[:]), rt.Hex(msg), rt.Hex(sig[:]), "accept"}, "", "")
 			return
@@ -285,17 +288,21 @@ func c05Crafted(j *rt.Job, rng *rt.Rand, r *rt.Rec) {
 	if j.Int("batch") < 3 {
 		ks = fixedSeeds()[j.Int("batch")]
 	}
-	lib := dilLibKey(ks)
+	// keys and honest signatures come from the REFERENCE (dilref), so that the verdicts depend on the
+	// library's verifier only; one library-made signature is judged in addition
 	ref := dilRefKey(ks)
-	pkA := lib.GetPK()
-	pk := pkA[:]
-	if !bytes.Equal(pk, ref.PK) {
-		r.Inconclusive("library and reference keys differ (C07's business); crafted signatures need the reference key")
-		return
-	}
+	pk := ref.PK
+	var pkA [dilPKBytes]byte
+	copy(pkA[:], pk)
 	msg := dilMsg(rng, rng.Intn(40))
-	sigA, _ := lib.Sign(msg)
-	sig := sigA[:]
+	sig, _ := ref.Sign(msg, dilref.Knobs{})
+	lib := dilLibKey(ks)
+	if lsig, err := lib.Sign(msg); err == nil {
+		lpk := lib.GetPK()
+		if !c05Judge(r, "library-made-triple", lpk[:], msg, lsig[:], "ref", true) {
+			return
+		}
+	}
 	if !c05Judge(r, "honest", pk, msg, sig, "ref", true) {
 		return
 	}
@@ -384,7 +391,9 @@ func c05Crafted(j *rt.Job, rng *rt.Rand, r *rt.Rec) {
 	found0, found255 := false, false
 	for t := 0; t < 150 && !(found0 && found255); t++ {
 		m2 := rng.Bytes(6)
-		sg, _ := lib.Sign(m2)
+		sgs, _ := ref.Sign(m2, dilref.Knobs{})
+		var sg [dilSigBytes]byte
+		copy(sg[:], sgs)
 		c2 := hintCounts(sg[:])
 		if c2[7] >= dilOmega {
 			continue
@@ -482,22 +491,22 @@ func c05Crafted(j *rt.Job, rng *rt.Rand, r *rt.Rec) {
 	if !c05Judge(r, "message-extended", pk, append(append([]byte(nil), msg...), 0), sig, "reject", false) {
 		return
 	}
-	ok2 := dilLibKey(rng.Seed48())
-	pk2 := ok2.GetPK()
-	sigOther, _ := ok2.Sign(msg)
-	if !c05Judge(r, "other-key-signature", pk, msg, sigOther[:], "reject", true) {
+	ok2 := dilRefKey(rng.Seed48())
+	pk2 := ok2.PK
+	sigOther, _ := ok2.Sign(msg, dilref.Knobs{})
+	if !c05Judge(r, "other-key-signature", pk, msg, sigOther, "reject", true) {
 		return
 	}
-	if !c05Judge(r, "other-key-pk", pk2[:], msg, sig, "reject", false) {
+	if !c05Judge(r, "other-key-pk", pk2, msg, sig, "reject", false) {
 		return
 	}
 	msgB := append([]byte("other:"), msg...)
-	sigB, _ := lib.Sign(msgB)
-	if !c05Judge(r, "other-message-signature", pk, msg, sigB[:], "reject", false) {
+	sigB, _ := ref.Sign(msgB, dilref.Knobs{})
+	if !c05Judge(r, "other-message-signature", pk, msg, sigB, "reject", false) {
 		return
 	}
 	// Open on truncated / extended sealed messages
-	sealed, _ := lib.Seal(msg)
+	sealed := append(append([]byte(nil), sig...), msg...)
 	for _, n := range []int{0, 1, 31, 32, 4594, dilSigBytes - 1} {
 		var o []byte
 		out := rt.Call(func() { o = dilithium.Open(sealed[:n], &pkA) })
@@ -521,10 +530,13 @@ func c05Crafted(j *rt.Job, rng *rt.Rand, r *rt.Rec) {
 	// cold keys: the FIRST thing the verifier sees under a fresh public key is a malformed signature
 	// (all-zero, random, broken hint section, out-of-range response); the honest signature comes second
 	for v := 0; v < 4; v++ {
-		ck := dilLibKey(rng.Seed48())
-		cpk := ck.GetPK()
+		ck := dilRefKey(rng.Seed48())
+		var cpk [dilPKBytes]byte
+		copy(cpk[:], ck.PK)
 		cm := rng.Bytes(9)
-		cs, _ := ck.Sign(cm)
+		css, _ := ck.Sign(cm, dilref.Knobs{})
+		var cs [dilSigBytes]byte
+		copy(cs[:], css)
 		var bad []byte
 		switch v {
 		case 0:
